@@ -60,6 +60,8 @@ pub enum Spec {
     Pb(Box<Spec>),
     ChunkOnly(Chunk),
     ItemOnly(Item),
+    /// An FCI builder used on its own: the FCI builders are public `RtcpPacketWriter`s.
+    FciOnly(Fci),
 }
 
 impl Fci {
@@ -72,16 +74,11 @@ impl Fci {
             }
             Fci::Fir { entries } => {
                 // last write wins
-                let mut out: Vec<(u32, u8)> = Vec::new();
+                let mut m: std::collections::BTreeMap<u32, u8> = std::collections::BTreeMap::new();
                 for (s, q) in entries.iter() {
-                    if let Some(e) = out.iter_mut().find(|e| e.0 == *s) {
-                        e.1 = *q;
-                    } else {
-                        out.push((*s, *q));
-                    }
+                    m.insert(*s, *q);
                 }
-                out.sort_unstable();
-                *entries = out;
+                *entries = m.into_iter().collect();
             }
             _ => {}
         }
@@ -116,6 +113,7 @@ impl Spec {
             Spec::Pb(i) => format!("pb({})", i.kind_name()),
             Spec::ChunkOnly(_) => "chunk".into(),
             Spec::ItemOnly(_) => "item".into(),
+            Spec::FciOnly(f) => format!("fci:{}", f.kind_name()),
         }
     }
 
@@ -136,12 +134,12 @@ impl Spec {
     }
 
     pub fn is_whole_packet(&self) -> bool {
-        !matches!(self, Spec::ChunkOnly(_) | Spec::ItemOnly(_))
+        !matches!(self, Spec::ChunkOnly(_) | Spec::ItemOnly(_) | Spec::FciOnly(_))
     }
 
     pub fn normalise(&mut self) {
         match self {
-            Spec::Fb { fci, .. } => fci.normalise(),
+            Spec::Fb { fci, .. } | Spec::FciOnly(fci) => fci.normalise(),
             Spec::Compound { members } => members.iter_mut().for_each(|m| m.normalise()),
             Spec::Pb(i) => i.normalise(),
             _ => {}
@@ -157,20 +155,23 @@ impl Spec {
             Spec::App { data, name, .. } => 1 + data.len() + name.len(),
             Spec::Unknown { data, .. } => 1 + data.len(),
             Spec::Third { payload, .. } => 1 + payload.len(),
-            Spec::Fb { fci, .. } => {
-                1 + match fci {
-                    Fci::Nack { seqs } => seqs.len(),
-                    Fci::Fir { entries } => entries.len(),
-                    Fci::Sli { entries } => entries.len(),
-                    Fci::Rpsi { bits, .. } => bits.len(),
-                    Fci::Pli => 0,
-                }
-            }
+            Spec::Fb { fci, .. } => 1 + fci_weight(fci),
             Spec::Compound { members } => 1 + members.iter().map(|m| m.weight()).sum::<usize>(),
             Spec::Pb(i) => 1 + i.weight(),
             Spec::ChunkOnly(c) => 1 + c.items.iter().map(|i| 1 + i.value.len() + i.prefix.len()).sum::<usize>(),
             Spec::ItemOnly(i) => 1 + i.value.len() + i.prefix.len(),
+            Spec::FciOnly(f) => 1 + fci_weight(f),
         }
+    }
+}
+
+fn fci_weight(f: &Fci) -> usize {
+    match f {
+        Fci::Nack { seqs } => seqs.len(),
+        Fci::Fir { entries } => entries.len(),
+        Fci::Sli { entries } => entries.len(),
+        Fci::Rpsi { bits, .. } => bits.len(),
+        Fci::Pli => 0,
     }
 }
 
@@ -290,6 +291,7 @@ impl Spec {
             Spec::Pb(i) => J::obj().set("t", "pb").set("inner", i.to_json()),
             Spec::ChunkOnly(c) => J::obj().set("t", "chunk").set("chunk", chunk_json(c)),
             Spec::ItemOnly(i) => J::obj().set("t", "item").set("item", item_json(i)),
+            Spec::FciOnly(f) => J::obj().set("t", "fci").set("fci", fci_json(f)),
         }
     }
 
@@ -339,6 +341,7 @@ impl Spec {
             "pb" => Spec::Pb(Box::new(Spec::from_json(j.obj_of("inner")?)?)),
             "chunk" => Spec::ChunkOnly(chunk_from(j.obj_of("chunk")?)?),
             "item" => Spec::ItemOnly(item_from(j.obj_of("item")?)?),
+            "fci" => Spec::FciOnly(fci_from(j.obj_of("fci")?)?),
             o => return Err(format!("unknown spec kind '{o}'")),
         })
     }
@@ -555,6 +558,13 @@ pub fn gen_fci(r: &mut Rng, cfg: &GenCfg) -> Fci {
             Fci::Nack { seqs }
         }
         1 => {
+            // very rarely (it costs tens of milliseconds) a map around the documented entry limit
+            // (32765) or around the width of a 16-bit counter
+            if cfg.big && cfg.invalid_pm > 0 && r.chance(1, 2_000) {
+                let n = *r.pick(&[32_764usize, 32_765, 32_766, 32_767, 65_535, 65_536, 65_537, 65_536 + 32_765, 65_536 + 32_766, 131_072]);
+                let base = r.u32();
+                return Fci::Fir { entries: (0..n as u32).map(|i| (base.wrapping_add(i), i as u8)).collect() };
+            }
             let n = gen_count(r, cfg, 12).min(16);
             Fci::Fir { entries: (0..n).map(|_| (r.u32_biased(), r.u8())).collect() }
         }
@@ -780,8 +790,14 @@ pub fn gen_spec(r: &mut Rng, cfg: &GenCfg, depth: usize) -> Spec {
                 }
             }
             Spec::ChunkOnly(c)
-        } else {
+        } else if roll < 6 {
             Spec::ItemOnly(gen_item(r, cfg))
+        } else {
+            let mut f = gen_fci(r, cfg);
+            if r.chance(1, 2) {
+                relate_fci(r, &mut f);
+            }
+            Spec::FciOnly(f)
         };
     }
     if cfg.wrappers && depth < 2 && roll >= 8 && roll < 26 {
@@ -1142,7 +1158,7 @@ impl Spec {
             Spec::Pb(i) => {
                 out.push((**i).clone());
                 for s in i.shrinks() {
-                    if !matches!(s, Spec::Compound { .. } | Spec::Third { .. } | Spec::ChunkOnly(_) | Spec::ItemOnly(_) | Spec::Pb(_)) {
+                    if !matches!(s, Spec::Compound { .. } | Spec::Third { .. } | Spec::ChunkOnly(_) | Spec::ItemOnly(_) | Spec::FciOnly(_) | Spec::Pb(_)) {
                         out.push(Spec::Pb(Box::new(s)));
                     }
                 }
@@ -1155,6 +1171,11 @@ impl Spec {
             Spec::ItemOnly(i) => {
                 for s in shrink_item(i) {
                     out.push(Spec::ItemOnly(s));
+                }
+            }
+            Spec::FciOnly(f) => {
+                for s in shrink_fci(f) {
+                    out.push(Spec::FciOnly(s));
                 }
             }
         }
